@@ -1484,8 +1484,9 @@ fn conc_case(case_seed: u64, r: &mut Report, forced_mode: Option<u64>) {
         (0..n)
             .map(|i| {
                 format!(
-                    "w{} {:?} -> {} [state {}]",
+                    "w{}{} {:?} -> {} [state {}]",
                     i,
+                    if fail_late[i] { "(proposer key removed at its hook)" } else { "" },
                     ops_of[i].iter().map(tx_short).collect::<Vec<_>>(),
                     match (&outcomes[i].ok, &outcomes[i].err) {
                         (Some(h), _) => format!("Ok({})", short(h)),
@@ -2034,27 +2035,29 @@ fn main() {
     let mut floors: Vec<(&'static str, u64)> = Vec::new();
     if args.replay.is_none() {
         if on("seq") {
-            floors.extend([("seq_programs", 60), ("seq_commit_ok", 150), ("seq_verify_calls", 1500)]);
+            floors.extend([("seq_programs", 60), ("seq_commit_ok", 150), ("seq_verify_calls", 1500), ("seq_commit_failed_after_apply_with_later_blocks", 15)]);
         }
         if on("concurrent") {
-            floors.extend([("conc_cases", 100), ("conc_cases_with_overlapping_calls", 50), ("conc_hook_hits", 100), ("conc_parked_cases", 20)]);
+            floors.extend([("conc_cases", 100), ("conc_cases_with_overlapping_calls", 50), ("conc_hook_hits", 100), ("conc_parked_cases", 20), ("conc_cases_with_late_failure_and_success", 15)]);
         }
         if on("replay") {
             floors.extend([("replay_cases", 40), ("replay_blocks_applied", 100), ("replay_apply_committed_calls", 40)]);
         }
         if on("tamper") {
-            floors.extend([("tamper_chains", 8), ("tamper_evals", 4000), ("tamper_detected", 3000)]);
+            floors.extend([("tamper_chains", 8), ("tamper_evals", 4000), ("tamper_detected", 3000), ("tamper[transplanted-validator-signature]", 50), ("tamper[validator-signatures]", 200)]);
         }
     }
     let meta = Meta {
         property: "C16",
-        rule: "seq: one evaluation = one random program (12-41 calls of begin/add_operation/set delta/commit/rollback/append_block over <=4 open workspaces, auto-merge on/off, block size limit) judged after EVERY call (verify() passes, height = accepted blocks, user keys of the store = block-order application of committed transactions, failed commit / rollback leave the full store dump and height/tip identical) and at the end (stored blocks walked through get_block, history()); distinct by the hash of the call/outcome trace, non-trivial if workspaces overlapped and at least one block was committed. tamper: one evaluation = one (stored block, mutation) pair on a 4-7 block chain built by commit/append_block with two registered validators; the altered record is written through the underlying store and verify() must fail; distinct by (scope, field class, variant, how the block was produced, tip/inner); every evaluated mutation changes the stored bytes and the decoded block. concurrent: one evaluation = 2-4 prepared workspaces committed from as many threads (keys disjoint/shared/mixed, deltas none/orthogonal/conflicting/mixed, auto-merge on/off, 0-2 prior blocks), either started together with jitter at the hook or parked at chain_commit:after_preimage and released singly / in groups in a seeded order; judged at quiescence (verify(), every block after the prefix = whole committed workspaces, each committed workspace in exactly one block, height = successful non-empty commits, stored chain walk, store = block-order application, single-writer keys present, failed writers invisible); distinct by configuration + schedule + outcomes + invocation/response order, non-trivial if at least two commit calls overlapped in real time. replay: one evaluation = one block sequence (2-6 blocks, optionally preceded by malformed variants) applied to two fresh replicas through TensorStateMachine::apply_block or a Raft follower + apply_committed; accept/reject decisions and compute_state_root after every entry must agree between replicas, well-formed blocks must be accepted, replica user keys = block-order application; non-trivial if >= 2 blocks were applied.",
+        rule: "seq: one evaluation = one random program (12-41 calls of begin/add_operation/set delta/commit/rollback/append_block over <=4 open workspaces, auto-merge on/off, block size limit; one commit in five runs while the proposer's key is absent from the validator registry, so it is refused by append AFTER its writes were applied, often with blocks of other workspaces committed since its begin; appended blocks may carry validator endorsements) judged after EVERY call (verify() passes, height = accepted blocks, user keys of the store = block-order application of committed transactions, failed commit / rollback leave the full store dump and height/tip identical) and at the end (stored blocks walked through get_block, history()); distinct by the hash of the call/outcome trace, non-trivial if workspaces overlapped and at least one block was committed. tamper: one evaluation = one (stored block, mutation) pair on a 4-7 block chain built by commit/append_block with three registered validators, at least two blocks carrying validator endorsements (add_signature); mutations include every single field of header, transactions and endorsement entries, and every signed element (endorsement entry, endorsement list, proposer signature, header, transactions) moved in from ANOTHER stored block; the altered record is written through the underlying store and verify() must fail; distinct by (scope, field class, variant, how the block was produced, tip/inner); every evaluated mutation changes the stored bytes and the decoded block. concurrent: one evaluation = 2-4 prepared workspaces committed from as many threads (keys disjoint/shared/mixed, deltas none/orthogonal/conflicting/mixed, auto-merge on/off, 0-2 prior blocks; each committer with probability 1/4 fails late: the proposer key is removed from the registry when it reaches the hook and registered again when its call has returned), either started together with jitter at the hook or parked at chain_commit:after_preimage and released singly / in groups in a seeded order; judged at quiescence (verify(), every block after the prefix = whole committed workspaces, each committed workspace in exactly one block, height = successful non-empty commits, stored chain walk, store = block-order application, single-writer keys present, failed writers invisible); distinct by configuration + schedule + outcomes + invocation/response order, non-trivial if at least two commit calls overlapped in real time. replay: one evaluation = one block sequence (2-6 blocks, optionally preceded by malformed variants) applied to two fresh replicas through TensorStateMachine::apply_block or a Raft follower + apply_committed; accept/reject decisions and compute_state_root after every entry must agree between replicas, well-formed blocks must be accepted, replica user keys = block-order application; non-trivial if >= 2 blocks were applied.",
         assumptions: vec![
             "auto-merge uses an unbounded merge window (u64::MAX) or is disabled, so no verdict depends on the 100 ms wall-clock default".into(),
             "compare-and-swap transactions are generated with a non-empty expectation only (the behaviour for an absent key and an empty expectation is not specified)".into(),
             "tampering is judged on the live chain instance (in-memory height and tip are the trust anchor); auxiliary record fields (_hash, _height, _timestamp) and chain:meta are not blocks and are not tampered with".into(),
             "forgery = a block signed with a key that is not registered (under its own or a validator's name), unsigned, or carrying the old signature; equivocation by a registered validator at the tip is not detectable by design and not tested".into(),
             "replicas of one replay run start from an empty store and, where a genesis exists, from the same genesis record; which malformed blocks a replica must refuse is not judged (only counted)".into(),
+            "late commit failures are injected through the public interface only (ValidatorRegistry::remove / register_validator around the call)".into(),
+            "dropping, repeating or reordering genuine endorsement entries of a stored block is counted (tamper_endorsement_list_change_undetected) but not a violation unless --strict-endorsement-list 1: nothing the proposer signed commits to that list, entries are added after signing through Block::add_signature".into(),
             "whether a workspace was committed is read from the result of commit() and, for workspaces merged into another commit, from TransactionWorkspace::state()".into(),
         ],
         floors,
